@@ -46,6 +46,8 @@ def gen_run(seed, tier, i):
     mode = s_struct.random()
     if mode < 0.12:
         st = structures.gen_multi_group(s_struct, 2, 3)
+    elif mode < 0.18:
+        st = structures.gen_many(s_struct, 10, 13)
     else:
         st = structures.gen_structure(s_struct, max_stems=6, max_len=3, knotted_bias=0.5, template_p=0.4)
     solver = s_cfg.choices(["sim", "none", "real-cbc"], [16, 3, 1])[0]
